@@ -323,17 +323,21 @@ int main(int argc, char **argv) {
 
   // ---- alphabets (all dyadic, so ties are exact)
   const std::vector<double> edges = {1.0, 1.5, 3.0};
-  const std::vector<double> tilts = thorough ? std::vector<double>{-0.5, -0.25, 0.0, 0.25, 0.5} : std::vector<double>{-0.5, 0.0, 0.25, 0.5};
+  const std::vector<double> tilts = thorough ? std::vector<double>{-0.5, -0.375, -0.25, -0.125, 0.0, 0.125, 0.25, 0.375, 0.5} : std::vector<double>{-0.5, 0.0, 0.25, 0.5};
   const std::vector<double> fb = {0.0, 0.125, 0.375, 0.5, 0.625, 0.875, 1.0};                     // base lattice (7 per axis)
   const std::vector<double> fd = {0.0, 0.125, 0.375, 0.5, 0.5 + 1.0 / 1048576.0, 0.625, 0.875, 1.0};  // difference lattice (8 per axis)
-  const std::vector<int> offs = {0, 1, -1, 2, -2, 1000, -1000};
-  std::vector<I3> off1, off2;  // <=1 and <=2 non-zero components
-  for (int i : offs) for (int j : offs) for (int k : offs) {
-    int nz = (i != 0) + (j != 0) + (k != 0);
-    if (nz <= 1) off1.push_back({i, j, k});
-    if (nz <= 2) off2.push_back({i, j, k});
-  }
-  const std::vector<D3> base4 = {{0, 0, 0}, {0.5, 0.5, 0.5}, {1, 1, 1}, {0.875, 0.125, 0.375}};
+  // fine difference lattice (sixteenths, 15 per axis) used by level C (thorough only)
+  const std::vector<double> fd15 = {0.0, 0.0625, 0.125, 0.1875, 0.25, 0.3125, 0.375, 0.4375, 0.5, 0.5 + 1.0 / 1048576.0, 0.5625, 0.625, 0.75, 0.875, 1.0};
+  const std::vector<int> offs = thorough ? std::vector<int>{0, 1, -1, 2, -2, 3, -3, 1000, -1000, 65536, -65536} : std::vector<int>{0, 1, -1, 2, -2, 1000, -1000};
+  const std::vector<int> offs2 = thorough ? std::vector<int>{0, 1, -1, 1000, -1000} : offs;  // alphabet of the offsets with two non-zero components
+  std::vector<I3> off1, two;  // <=1 non-zero component; exactly 2 non-zero components
+  for (int i : offs) for (int j : offs) for (int k : offs)
+    if ((i != 0) + (j != 0) + (k != 0) <= 1) off1.push_back({i, j, k});
+  for (int i : offs2) for (int j : offs2) for (int k : offs2)
+    if ((i != 0) + (j != 0) + (k != 0) == 2) two.push_back({i, j, k});
+  const std::vector<D3> base4 = thorough ? std::vector<D3>{{0, 0, 0}, {1, 1, 1}, {0.875, 0.125, 0.375}}   // (the centre is the base point of the explicitly typed runs)
+                                         : std::vector<D3>{{0, 0, 0}, {0.5, 0.5, 0.5}, {1, 1, 1}, {0.875, 0.125, 0.375}};
+  const std::vector<D3> base2 = {{0, 0, 0}, {0.875, 0.125, 0.375}};
 
   std::vector<Box> boxes;
   auto add_modes = [&](Box b) {
@@ -346,6 +350,13 @@ int main(int argc, char **argv) {
       Box b; b.ax = ax; b.by = by; b.cz = cz; b.bx = tb * ax; b.cx = tc * ax; b.cy = td * by;
       add_modes(b);
     }
+  // second edge family (thorough): edges {0.75,2,5}^3 x tilt factors {-1/2,0,3/8}^3
+  if (thorough)
+    for (double ax : {0.75, 2.0, 5.0}) for (double by : {0.75, 2.0, 5.0}) for (double cz : {0.75, 2.0, 5.0})
+      for (double tb : {-0.5, 0.0, 0.375}) for (double tc : {-0.5, 0.0, 0.375}) for (double td : {-0.5, 0.0, 0.375}) {
+        Box b; b.ax = ax; b.by = by; b.cz = cz; b.bx = tb * ax; b.cx = tc * ax; b.cy = td * by;
+        add_modes(b);
+      }
   // tiny tilts: still triclinic (auto detection must not treat them as zero)
   for (auto e : std::vector<std::array<double, 3>>{{1, 1, 1}, {1, 1.5, 3}})
     for (int which = 0; which < 3; which++)
@@ -363,17 +374,27 @@ int main(int argc, char **argv) {
     if (b.open()) return true;
     bool cubic1 = b.ax == 1 && b.by == 1 && b.cz == 1, mixed = b.ax == 1 && b.by == 1.5 && b.cz == 3, mixed2 = b.ax == 3 && b.by == 1 && b.cz == 1.5;
     if (!(cubic1 || mixed || mixed2)) return false;
+    if (thorough) return cubic1 || mixed;  // thorough: every tilt combination of the 1x1x1 and the 1x1.5x3 box
     double tb = b.bx / b.ax, tc = b.cx / b.ax, td = b.cy / b.by;
     auto is = [&](double x, double y, double z) { return tb == x && tc == y && td == z; };
     return is(0, 0, 0) || is(0.5, 0.5, 0.5) || is(-0.5, 0.5, -0.5) || is(0.25, 0, 0) || is(0, -0.5, 0.25) || is(0.5, 0, 0.5) || is(0.25, 0.25, 0.25) || is(0, 0, -0.5);
   };
 
-  R.rule = "boxes = edges {1,1.5,3}^3 x tilt factors " + std::string(thorough ? "{-1/2,-1/4,0,1/4,1/2}" : "{-1/2,0,1/4,1/2}") +
+  if (!thorough)
+    R.rule = "boxes = edges {1,1.5,3}^3 x tilt factors {-1/2,0,1/4,1/2}"
            "^3 (b_x=t*a_x, c_x=t*a_x, c_y=t*b_y: all GROMACS-reduced incl. the boundary) + 12 tiny-tilt boxes (1e-3, -1e-6) + zero matrix + 2 explicitly open; "
            "each auto-detected and explicitly typed (diagonal ones also typed triclinic). Points: level A (every box): 4 base points x 8^3 differences "
            "(fractions {0,1/8,3/8,1/2,1/2+2^-20,5/8,7/8,1}) x whole-box offsets of either point with <=1 non-zero component from {0,+-1,+-2,+-1000} "
-           "(explicitly typed boxes: 1 base point); level B (" + std::string(thorough ? "24" : "<=24") + " representative auto-detected boxes + open): full 7^3 base lattice x 8^3 differences via Topology::getDist, "
-           "and 4 bases x 8^3 differences x offsets with <=2 non-zero components. Oracle: integer-combination residual, membership in the set of "
+           "(explicitly typed boxes: 1 base point); level B (<=24 representative auto-detected boxes + open): full 7^3 base lattice x 8^3 differences via Topology::getDist, "
+           "and 4 bases x 8^3 differences x offsets with <=2 non-zero components. ";
+  else
+    R.rule = "boxes = edges {1,1.5,3}^3 x tilt factors {-1/2,-3/8,-1/4,-1/8,0,1/8,1/4,3/8,1/2}^3 (b_x=t*a_x, c_x=t*a_x, c_y=t*b_y: all GROMACS-reduced incl. the boundary, negative tilts, "
+           "all single-tilt boxes) + edges {0.75,2,5}^3 x tilts {-1/2,0,3/8}^3 + 12 tiny-tilt boxes (1e-3, -1e-6) + zero matrix + 2 explicitly open; each auto-detected and explicitly typed "
+           "(diagonal ones also typed triclinic). Points: level A (every box): 3 base points (explicitly typed: the centre) x 8^3 differences (fractions {0,1/8,3/8,1/2,1/2+2^-20,5/8,7/8,1}) x whole-box offsets of "
+           "either point with <=1 non-zero component from {0,+-1,+-2,+-3,+-1000,+-65536}; level B (all 729 tilt combinations of the 1x1x1 and 1x1.5x3 boxes + open): full 7^3 base lattice x 8^3 differences via "
+           "Topology::getDist, and 3 bases x 8^3 differences x offsets with 2 non-zero components from {+-1,+-1000}; level C (all 729 tilt combinations of the 3x1x1.5 box): 2 bases x 15^3 differences "
+           "(sixteenths + 1/2+2^-20) x the level-A offsets. ";
+  R.rule += "Oracle: integer-combination residual, membership in the set of "
            "brute-force (7^3 images, long double) minimisers within 1e-9 (ties accept any), sign flip on swap, shift invariance; outside the guaranteed "
            "range (triclinic, distance >= half shortest height) only integer-combination, invariance and antisymmetry up to rounding ties. "
            "BoxVolume/ShortestBoxSize vs independent long double formulas. distinct_nontrivial = distinct (box class, type mode, selected image vector, demanded) + distinct (volume,height)";
@@ -384,11 +405,16 @@ int main(int argc, char **argv) {
       "the box type chosen by auto detection is not itself asserted, only the resulting distances",
       "ShortestBoxSize of the zero (open) box is not defined by the statement and not checked"};
 
+  // level C (thorough): fine difference lattice for every tilt combination of the 3x1x1.5 box
+  auto levelC = [&](const Box &b) { return thorough && b.mode == 0 && b.ax == 3 && b.by == 1 && b.cz == 1.5; };
+  // all type modes of one box matrix go to the same shard (balances the cheap explicit-type runs against the auto runs)
+  std::vector<long long> group(boxes.size());
+  { long long g = -1; for (size_t i = 0; i < boxes.size(); i++) { if (boxes[i].mode == 0 || boxes[i].mode == 3) g++; group[i] = g; } }
   Ctx cx;
   std::map<std::string, long long> per;
   long long shown = 0;
   for (size_t bi = 0; bi < boxes.size(); bi++) {
-    if (!a.mine((long long)bi)) continue;
+    if (!a.mine(group[bi])) continue;
     const Box &bx = boxes[bi];
     apply_box(cx.top, bx);
     {
@@ -437,13 +463,13 @@ int main(int argc, char **argv) {
       for (double p : fb) for (double q : fb) for (double r : fb)
         for (double x : fd) for (double y : fd) for (double z : fd) run({p, q, r}, {x, y, z}, off1, true, true);
       for (const D3 &fbase : base4)
-        for (double x : fd) for (double y : fd) for (double z : fd) {
-          // only the offsets not already covered by level A
-          std::vector<I3> two;
-          for (auto &n : off2) if ((n[0] != 0) + (n[1] != 0) + (n[2] != 0) == 2) two.push_back(n);
-          run(fbase, {x, y, z}, two, false, false);
-        }
+        for (double x : fd) for (double y : fd) for (double z : fd) run(fbase, {x, y, z}, two, false, false);  // offsets not covered by level A
       R.counters["levelB_boxes"]++;
+    }
+    if (levelC(bx)) {
+      for (const D3 &fbase : base2)
+        for (double x : fd15) for (double y : fd15) for (double z : fd15) run(fbase, {x, y, z}, off1, false, false);
+      R.counters["levelC_boxes"]++;
     }
     R.counters["boxes"]++;
   }
